@@ -2678,6 +2678,11 @@ class StreamWorld(BaseWorld):
         if texc is not None and type(texc) is type(e):
             self.stats[f'unsupported:mix_from:{type(e).__name__}'] += 1
             return f'unsupported:{type(e).__name__}'
+        if self.is_view_locked(recv) or any(self.is_view_locked(i) for i in ev['inlets']):
+            # a per-phase view has a locked phase; its fresh twin is an ordinary stream, so the
+            # differential comparison does not apply
+            self.stats[f'unsupported:mix_from_view:{type(e).__name__}'] += 1
+            return f'unsupported:{type(e).__name__}'
         if self.prop == 'C01':
             self.fail('mix-raises-with-history', f'mix_from raised {type(e).__name__}: {e} on aged streams but '
                       f'{"works" if texc is None else "raises " + type(texc).__name__} on fresh streams in the same state',
